@@ -19,7 +19,9 @@ LEVEL = "model_checking"
 RULE = (
     "execution = iterate the real RTCMReader over one generated stream on one stream kind until "
     "StopIteration; streams: every sequence of <= d well-formed items, every payload length 0..1023 "
-    "between two frames, every NMEA talker and every inert byte value between two frames; stream "
+    "between two frames, every implemented type at every shape of the alphabet (largest group "
+    "counts included) between two frames, every NMEA talker and every inert byte value between two "
+    "frames; stream "
     "kinds: BytesIO, BufferedReader(buffer 1/2/7/8192 over a dribbling raw stream), socket with "
     "every single segmentation point; oracle: yielded raw frames with >= 2 payload bytes == the "
     "generator's own list; states = distinct (stream, frames-yielded-so-far) positions, "
@@ -179,6 +181,24 @@ def cases(tier):
         mid = items.frame_item(f"F{k}", items.unknown_payload(k, 4005, k))
         out.append(mk([a, mid, b], "sock", bufsize=1))
         out.append(mk([a, mid, b], "buf:1:1"))
+    # every implemented type at every shape of the alphabet (incl. the largest group counts and
+    # three-digit group indices): a well-formed frame of a known type is a frame like any other
+    from mc import refmodel as R, shapes as S  # pylint: disable=import-outside-toplevel
+
+    for identity, _tbl in R.all_identities():
+        try:
+            shp = S.enumerate_shapes(identity, "quick")
+        except R.BadDefinition:
+            continue
+        for k, shape in enumerate(shp):
+            try:
+                payload, _o, _n = R.build(identity, shape, "fp")
+            except (R.BadDefinition, R.TooLong):
+                continue
+            mid = items.frame_item(f"{identity}#{k}", payload)
+            out.append(mk([a, mid, b], "bytesio"))
+            if k % 5 == 0 or len(payload) > 200:
+                out.append(mk([a, mid, b], "sock:9"))
     for t in items.NMEA_TALKERS:
         it = {"name": f"nmea{t}", "data": items.nmea(t), "kind": "skip"}
         for kind in ("bytesio", "sock:9", "buf:2:3"):
